@@ -88,7 +88,45 @@ func checkFloatJSON(vals []float64) *core.Failure {
 		rev[n-i], ids[n-i] = v, i
 	}
 	d := qframe.New(map[string]interface{}{"f": rev, "id": ids}).Filter(qframe.Filter{Column: "id", Comparator: ">=", Arg: 0}).Sort(qframe.Order{Column: "id"}).Select("f")
-	return checkFloatJSONOn(d, vals, "a filtered and sorted frame")
+	if f := checkFloatJSONOn(d, vals, "a filtered and sorted frame"); f != nil {
+		return f
+	}
+	// what one view of a column is written as must not decide how another view of it is written: a Slice that shows
+	// whole numbers only is written first, then the whole frame, then the other Slice
+	mixed := append(append([]float64{1, 2, -3}, vals...), 4, 5)
+	p := qframe.New(map[string]interface{}{"f": mixed})
+	if f := checkFloatJSONOn(p.Slice(0, 3), mixed[:3], "a Slice showing whole numbers only (written first)"); f != nil {
+		return f
+	}
+	if f := checkFloatJSONOn(p, mixed, "the whole frame, after a Slice of whole numbers was written"); f != nil {
+		return f
+	}
+	if f := checkFloatJSONOn(p.Slice(3, len(mixed)), mixed[3:], "the other Slice of the frame"); f != nil {
+		return f
+	}
+	// columns made from a constant: written as the cells the views show
+	for _, v := range []float64{math.Copysign(0, -1), 0, 1, -2.5, 1e300, 5e-324, math.MaxFloat64, 1e21, 123456789012345680} {
+		cq := qframe.New(map[string]interface{}{"f": qframe.ConstFloat{Val: v, Count: 3}})
+		if cq.Err != nil {
+			return core.Failf("New(ConstFloat %g): %v", v, cq.Err)
+		}
+		view := cq.MustFloatView("f")
+		shown := []float64{view.ItemAt(0), view.ItemAt(1), view.ItemAt(2)}
+		if f := checkFloatJSONOn(cq, shown, fmt.Sprintf("a constant column (ConstFloat %g)", v)); f != nil {
+			return f
+		}
+		if f := checkFloatJSONOn(cq.Sort(qframe.Order{Column: "f"}).Slice(1, 3), shown[1:], fmt.Sprintf("a sorted and sliced constant column (ConstFloat %g)", v)); f != nil {
+			return f
+		}
+		ap := qframe.New(map[string]interface{}{"g": []int{1, 2}}).Apply(qframe.Instruction{Fn: v, DstCol: "f"}).Select("f")
+		if ap.Err == nil {
+			av := ap.MustFloatView("f")
+			if f := checkFloatJSONOn(ap, []float64{av.ItemAt(0), av.ItemAt(1)}, fmt.Sprintf("a column made by Apply of the constant %g", v)); f != nil {
+				return f
+			}
+		}
+	}
+	return nil
 }
 
 func checkFloatJSONOn(q qframe.QFrame, vals []float64, what string) *core.Failure {
